@@ -80,7 +80,10 @@ def finishCo (a : CaseAcc) (cfg : Co.Cfg) : IO Unit := do
     let evs := match a.coVec with
       | some j => Co.withHiddenSource cfg j evs0
       | none => evs0
-    IO.println s!"R {a.id} {Co.verdict cfg evs}"
+    let pre := match a.coVec with
+      | some j => (List.range j).map Co.itemVal
+      | none => []
+    IO.println s!"R {a.id} {Co.verdict cfg pre evs}"
 
 /-- one level of nesting: the flattened trace of the real code (leaves of the inner combinators and
     the children of the outer one all count as children; the task waker is the outer one's) is
